@@ -165,7 +165,7 @@ def canon_impl_value(v):
         except ValueError:
             return ('num?', v['p'])
     if isinstance(v, dict) and 'c' in v:
-        return ('ctx', tuple(sorted((NAMES.index(k) if k in NAMES else k, canon_impl_value(x)) for k, x in v['c'])))
+        return ('ctx', tuple(sorted(((NAMES.index(k) if k in NAMES else k, canon_impl_value(x)) for k, x in v['c']), key=lambda kv: (isinstance(kv[0], str), str(kv[0])))))
     return ('other', json.dumps(v))
 
 
